@@ -47,7 +47,7 @@ impl Stream for Repeat {
         let lo = match lo {
             Some(x) => {
                 if x < 0 {
-                    x - 1
+                    x.saturating_sub(1)
                 } else {
                     x
                 }
@@ -57,7 +57,7 @@ impl Stream for Repeat {
         let hi = match hi {
             Some(x) => {
                 if x < 0 {
-                    x - 1
+                    x.saturating_sub(1)
                 } else {
                     x
                 }
